@@ -153,6 +153,33 @@ def gen_c17(rng, oracle, index, tier="quick"):
         g.emit(op, {"base": op["h"]} if op.get("out") else None)
         if len(g.ops) > before:
             g.events.append((op["m"], "pre", tuple(sorted(tags))))
+    # ---- a configurator polyhedron built by hand (other dtypes than the int64 every proposition produces)
+    rawpolys = []
+    if rng.random() < 0.15:
+        n = rng.randint(2, 5)
+        ids = sorted(rng.sample(sorted(g.leafb), min(n, len(g.leafb))))
+        dt = rng.choice(["float64", "float64", "int32", "int16", "int64", "float32"])
+        rows = []
+        for _ in range(rng.randint(1, 4)):
+            if dt.startswith("float"):
+                rows.append([rng.choice([0, 1, -1, 0.5, 1.5, -2.5])] + [rng.choice([0, 1, -1, 0.5, -0.5, 2]) for _ in ids])
+            else:
+                rows.append([rng.randint(-3, 3)] + [rng.choice([0, 1, -1, 2, -2]) for _ in ids])
+        vs = [[0, 1, 1]] + [[i, g.leafb[i][0], g.leafb[i][1]] for i in ids]
+        dpv = None if rng.random() < 0.3 else [rng.choice([-1, -1, -2, -3]) for _ in ids]
+        ph = g.fresh("p")
+        g.emit({"op": "new", "h": ph, "recipe": ["rawpoly", rows, dt, vs, dpv]})
+        if ph in g.handles:
+            rawpolys.append(ph)
+            box = 1
+            for i in ids:
+                box *= (g.leafb[i][1] - g.leafb[i][0] + 1)
+            g.handles[ph]["info"] = None
+            g.handles[ph]["fake_info"] = {"kind": "poly", "top": None, "leaves": {i: g.leafb[i] for i in ids}, "comps": {},
+                                          "box": (1 << 30) if dt.startswith("float") else box, "bool": False,
+                                          "has_default": False, "solver_safe": True}
+            g.events.append(("new-rawpoly", dt, ()))
+            g.hit("c17:hand-built-polyhedron:" + dt)
     # ---- choose what to snapshot
     targets = []
     objs = [h for h in g.order if g.handles[h]["kind"] in ("prop", "cfg")]
@@ -168,6 +195,8 @@ def gen_c17(rng, oracle, index, tier="quick"):
         ref = g.emit({"op": "call", "h": c, "m": "ge_polyhedron_h", "out": ph}, {"base": c})
         if ph in g.handles:
             targets.append((ph, "poly"))
+    for ph in rawpolys:
+        targets.append((ph, "poly"))
     keys = []
     for h, kind in targets:
         key = f"k{len(keys) + 1}"
@@ -263,6 +292,13 @@ def gen_c17(rng, oracle, index, tier="quick"):
 
 
 def _root_info(g, h):
+    seen = 0
+    hh = h
+    while hh in g.handles and seen < 10:
+        if g.handles[hh].get("fake_info"):
+            return g.handles[hh]["fake_info"], hh
+        hh = g.handles[hh].get("base")
+        seen += 1
     seen = 0
     while h in g.handles and g.handles[h].get("info") is None and seen < 10:
         h = g.handles[h].get("base")
